@@ -1015,7 +1015,13 @@ typedef struct {
 	} cpu;
 	uint32_t dp_stack[32];
 	uint32_t rp_stack[32];
+#ifdef BR_VERIF
+	unsigned char verif_guard_pad0[16];
+#endif
 	unsigned char pad[512];
+#ifdef BR_VERIF
+	unsigned char verif_guard_pad1[16];
+#endif
 	unsigned char *hbuf_in, *hbuf_out, *saved_hbuf_out;
 	size_t hlen_in, hlen_out;
 	void (*hsrun)(void *ctx);
@@ -3470,6 +3476,9 @@ struct br_ssl_server_context_ {
 	 * Buffer for the ECDHE private key.
 	 */
 	unsigned char ecdhe_key[70];
+#ifdef BR_VERIF
+	unsigned char verif_guard_ecdhe_key[16];
+#endif
 	size_t ecdhe_key_len;
 
 	/*
